@@ -22,6 +22,8 @@ ResOk(r, exp) ==
            (IF exp.v.k = "message" THEN r.pm = exp.v ELSE r.scal.k = exp.v.k /\ r.scal.b = exp.v.b)
         ELSE TRUE
      /\ (r.d.k = "skipped" \/ PDumpNode(r.d, exp, r.byid))
+     \* List / IntMap / StrMap on a list or map node: the same Go value, judged like Interface()'s
+     /\ ("d2" \notin DOMAIN r \/ r.d2.k = "skipped" \/ PDumpNode(r.d2, exp, r.byid))
   ELSE IF exp.st = "notfound" THEN r.st = "notfound" \/ (exp.lbl = "IdxBeyond" /\ r.st = "err") \/ (r.undecl /\ r.st = "err")
   ELSE r.st \in {"err", "notfound"}       \* C07 does not fix how a non-fitting path item is refused
 Why(r, exp) == IF r.st # exp.st THEN r.st ELSE IF r.nk # exp.nk THEN "node-kind"
